@@ -13,6 +13,7 @@ import DL.Model.Txt
 import DL.Model.VmsJson
 import DL.Model.FixSmall
 import DL.Model.Ws
+import DL.Model.ImportFixJson
 
 /-! `dlmodel`: one JSON request per line on stdin, one JSON answer per line on stdout. -/
 open Lean (Json)
@@ -196,6 +197,7 @@ def dispatch (j : Json) : Except String Json := do
     let t ← getStr j "t"
     pure (Json.mkObj [("hits", Json.arr ((DL.Txt.preferAscii t.toList).map (fun h => Json.arr #[(h.start : Json), (h.stop : Json)])).toArray)])
   | "vms" => DL.Vms.runVms j
+  | "imp" => DL.Imp.runImp j
   | "ws" => do
     let segs ← (← getArr j "segs").toList.mapM fun s => do
       let a ← s.getArr?
